@@ -87,3 +87,11 @@ Theorem C08_keyword_offered_iff_prefix : forall p kw r vt root rr res,
     then vret [VC kKeyword (Some kw) (Some kw) (Some kw) (Some false) (rs r) (re r)] else vnil.
 Proof. exact keyword_on_typed_name. Qed.
 Print Assumptions C08_keyword_offered_iff_prefix.
+
+(* object attribute names offered inside an object value are exactly the attributes of the constraint that start
+   with the typed text and are not declared elsewhere in the object (the item being edited itself may be replaced) *)
+Theorem C08_object_attribute_candidates_exact : forall prefill prefix ats d er name,
+  (exists n s t, In (VC kAttribute (Some name) n s t (fst er) (snd er)) (attrs_to_cands prefill prefix ats d er)) <->
+  (exists a, In (name, a) ats) /\ bytes_prefix prefix name = true /\ (forall dr, decl_get d name = Some dr -> overlaps dr er = true).
+Proof. exact attrs_to_cands_exact. Qed.
+Print Assumptions C08_object_attribute_candidates_exact.
